@@ -38,8 +38,13 @@ pub fn info() -> PropInfo {
     }
 }
 
+/// Does the input start with a COMPLETE byte-order mark / encoding signature? Only then may the
+/// sniff (which looks at the first piece only - the exception written into the property) see
+/// something different in a short first piece. An input that merely shares a first byte or two with
+/// a signature (`U+FF21` = EF BC A1) must be read the same under every chunking.
 fn sniffable(data: &[u8]) -> bool {
-    matches!(data.first(), Some(0xEF) | Some(0xFE) | Some(0xFF) | Some(0x00)) || data.starts_with(b"<\0")
+    const SIGNATURES: &[&[u8]] = &[&[0xEF, 0xBB, 0xBF], &[0xFE, 0xFF], &[0xFF, 0xFE], &[0x00, 0x3C, 0x00, 0x3F], &[0x3C, 0x00, 0x3F, 0x00], &[0x00, 0x3C], &[0x3C, 0x00]];
+    SIGNATURES.iter().any(|s| data.starts_with(s))
 }
 
 pub fn normalise_cuts(data: &[u8], cuts: &[usize]) -> Vec<usize> {
